@@ -1060,10 +1060,10 @@ static Token *preprocess2(Token *tok) {
       char *filename = read_include_filename(&tok, tok->next, &ignore);
 
       // The search continues after the directory of the file that
-      // contains the directive, whatever was included in between.
-      int idx = include_dir_index(start->file->name);
-      if (idx >= 0)
-        include_next_idx = idx + 1;
+      // contains the directive, whatever was included in between. A
+      // file that was not found through the include path (e.g. the
+      // main source file) searches the whole list.
+      include_next_idx = include_dir_index(start->file->name) + 1;
       char *path = search_include_next(filename);
       tok = include_file(tok, path ? path : filename, start->next->next);
       continue;
